@@ -91,3 +91,22 @@ Example ex_packet_roundtrip :
   | _ => False
   end.
 Proof. vm_compute. repeat split; reflexivity. Qed.
+
+(* finding K1: an adaptation field extension with trailing reserved bytes (legal per 2.4.3.4; here
+   adaptation_field_extension_length = 3 with no optional part, i.e. two reserved bytes) is outside [conformant]:
+   the parser neither skips nor records the reserved bytes, so they come back as adaptation field stuffing behind an
+   extension of length 1 - same meaning, one byte differs *)
+Definition k1_bytes : list Z :=
+  [71; 1; 0; 48] ++ [5; 1; 3; 31; 255; 255] ++ map Z.of_nat (seq 0 178).
+Definition k1_reemitted : list Z :=
+  [71; 1; 0; 48] ++ [5; 1; 1; 31; 255; 255] ++ map Z.of_nat (seq 0 178).
+
+Example k1_reemit_differs :
+  length k1_bytes = 188%nat /\
+  exists p, parse_packet_bytes k1_bytes = Ok p /\ write_packet p 188 = Ok k1_reemitted /\
+            k1_reemitted <> k1_bytes /\
+            firstn 6 k1_reemitted = firstn 6 k1_bytes /\ skipn 7 k1_reemitted = skipn 7 k1_bytes.
+Proof.
+  split; [reflexivity|]. eexists. split; [vm_compute; reflexivity|]. split; [vm_compute; reflexivity|].
+  split; [intros H; vm_compute in H; discriminate | split; reflexivity].
+Qed.
